@@ -61,13 +61,13 @@ class TD5(TypedDict):
 
 def objects():
     return [0, 1, True, 1.5, 1j, "a", "", b"a", None, (1, "a"), (1, 2), (), [1, 2], ["a"], [], {"a": 1}, {1: "a"}, {}, {1}, frozenset({1}),
-            Color.RED, A(), B(), int, A, B, str, (1, "s", 1.5), (1, 2.5), (1, "s", "t", 0.5), Point(1, 2), Celsius(36.6), {"a": 1, "b": "x"}, {"a": 1, "b": 5}, {"a": "x"}, {"a": "x", "k": 1}]
+            {"x"}, {1.5}, {1, "a"}, [{"x"}], frozenset({"x"}), range(3), Color.RED, A(), B(), int, A, B, str, (1, "s", 1.5), (1, 2.5), (1, "s", "t", 0.5), Point(1, 2), Celsius(36.6), {"a": 1, "b": "x"}, {"a": 1, "b": 5}, {"a": "x"}, {"a": "x", "k": 1}]
 
 
 def types():
     return [int, bool, float, complex, str, bytes, object, type(None), Literal[1], Literal["a"], Literal[True], Optional[int], Union[int, str],
             List[int], List[str], Set[int], FrozenSet[int], Dict[str, int], Tuple[int, str], Tuple[int, ...], Tuple[()], Sequence[int], Mapping[str, int],
-            Iterable[int], Type[A], Type[int], A, B, Color, Literal[Color.RED], Annotated[int, "x"], Optional[List[int]], List[Optional[int]],
+            Iterable[int], Iterable[str], typing.AbstractSet[str], Set[str], List[Set[int]], Sequence[str], Type[A], Type[int], A, B, Color, Literal[Color.RED], Annotated[int, "x"], Optional[List[int]], List[Optional[int]],
             Dict[str, List[int]], Tuple[int, Tuple[str, int]], Sequence[Union[int, str]], Tuple[int, int], TD1, TD2, TD3, TD4, TD5, Optional[complex], Tuple[int, typing_extensions.Unpack[Tuple[str, ...]], float]]
 
 
@@ -176,9 +176,18 @@ def search_literals(skip_known=True):
             got = is_assignable(o, T)
             if got != want and skip_known and want and isinstance(o, tuple) and any(typing.get_origin(a) is typing_extensions.Unpack for a in typing.get_args(T)):
                 continue  # known finding D25
+            if got != want and skip_known and got and type(o) not in (tuple, list, set, frozenset, dict) and isinstance(o, (tuple, list, set, frozenset, dict)) \
+                    and typing.get_origin(T) in (collections.abc.Iterable, collections.abc.Sequence, collections.abc.Collection, collections.abc.Set, collections.abc.Mapping):
+                continue  # known finding D50: instance of a proper subclass of a builtin container against a generic ABC
             if got != want:
                 return f"is_assignable({o!r}, {T}) = {got}, structural membership says {want}"
     return None
+
+
+def w_d50(rec):
+    from pyanalyze.runtime import is_assignable
+    got = is_assignable(Point(1, 2), Iterable[str])
+    return bool(got), f"is_assignable(Point(x=1, y=2), Iterable[str]) = {got} for class Point(NamedTuple) with int fields: the element type of a generic ABC is not compared for instances of tuple subclasses"
 
 
 def search_types(skip_known=True):
@@ -274,6 +283,7 @@ def w_d25(rec):
 
 
 REPLAYERS["C03.D25"] = w_d25
+REPLAYERS["C03.D50"] = w_d50
 REPLAYERS["C04.D23"] = w_d23
 REPLAYERS["C04.D24"] = w_d24
 REPLAYERS["C03.bounded"] = lambda rec: (lambda m: (bool(m), m or "is_assignable(o, T) == member(o, T) on the object x type universe"))(search_literals())
